@@ -93,6 +93,8 @@ fn cases(thorough: bool) -> Vec<Case> {
     let mut vals: Vec<V> = strings().into_iter().map(s).collect();
     vals.extend(other_values());
     vals.extend(vec![i(0), i(9), i(10), s("x"), s("7")]);
+    // integers whose low 32 bits look like a digit, and the extremes (converters must not truncate)
+    vals.extend(vec![i(-1), i(4294967296), i(4294967301), i(-4294967289), i(i64::MAX), i(i64::MIN + 1)]);
     let mut out = vec![];
     let qa = || Arg::Q(false, vec![key("a")]);
     for fname in unary_fns {
